@@ -2237,8 +2237,11 @@ class StateEngine(object):
                     # https://docs.python.org/3/library/fnmatch.html
                     # Change the \ escape to fnmatch [seq] escape and also
                     # escape [ to allow things like a literal [hello]
+                    # Also escape ? as only * is a wildcard in StringMatches
+                    # and use fnmatchcase() as the match is case sensitive.
                     value = value.replace("[", "[[]").replace("\\*", "[*]")
-                    if fnmatch.fnmatch(variable, value):
+                    value = value.replace("?", "[?]")
+                    if fnmatch.fnmatchcase(variable, value):
                         return next
 
                 def asl_choice_TimestampEquals(value):
